@@ -977,6 +977,7 @@ package yang
 // the list this call returns. not-supported removes the target itself from its
 // own parent. (Partial contract: which values are written is exercised by the
 // bounded comparison with RFC 7950 7.20.3; Find and the sort are outside.)
+//@ pred listy(x *Entry) = x.ListAttr != nil && (x.Dir != nil || x.Kind == LeafEntry)   -- a list or a leaf-list: IsList() || IsLeafList()
 //@ func (*Entry).ApplyDeviate$appendErr props C08
 //@   ensures  len(errs) == old(len(errs)) + 1 && (arr(errs) == old(arr(errs)) || fresh(errs))
 //@   modifies cell(errs), elems(errs)
@@ -985,7 +986,7 @@ package yang
 //@   modifies nothing
 //@   safe
 //@ func (*Entry).ApplyDeviate props C08
-//@   only loop4/frame:H: loop4/frame:M loop4/frame:E:Str loop4/frame:C: loop4/frame:B: loop4/inv before:   -- the frame of the error-list arrays (E:Iface) is generated but not claimed: the solvers do not decide it
+//@   only loop4/frame:H: loop4/frame:M loop4/frame:E:Str loop4/frame:C: loop4/frame:B: loop4/inv loop4/body before:   -- the frame of the error-list arrays (E:Iface) is generated but not claimed: the solvers do not decide it
 //@   before[not-supported-removes-the-target-from-its-own-parent] (*Entry).delete arg0 == deviatedNode.Parent && arg0 != nil && arg1 == deviatedNode.Name
 //@   loop 4
 //@     modifies deviatedNode.Config, deviatedNode.Default, deviatedNode.Mandatory, deviatedNode.Units, deviatedNode.Type
@@ -994,6 +995,16 @@ package yang
 //@     invariant deviatedNode.Parent == nil || arr(deviatedNode.Parent.Errors) == loopentry(arr(deviatedNode.Parent.Errors)) || loopfresh(deviatedNode.Parent.Errors)
 //@     modifies contents(deviatedNode.Parent.Dir), deviatedNode.Parent.Errors, elems(deviatedNode.Parent.Errors), cell(errs), elems(errs)
 //@     modifies deviatedNode.Parent.RPC.Input, deviatedNode.Parent.RPC.Output   -- not-supported on the input or output of an rpc or action
+//@     body_ensures[add-and-replace-write-the-config-the-deviate-statement-says] (dt == DeviationAdd || dt == DeviationReplace) && devSpec.Config != TSUnset ==> deviatedNode.Config == devSpec.Config
+//@     body_ensures[add-and-replace-write-the-mandatory-the-deviate-statement-says] (dt == DeviationAdd || dt == DeviationReplace) && devSpec.Mandatory != TSUnset ==> deviatedNode.Mandatory == devSpec.Mandatory
+//@     body_ensures[delete-unsets-config-and-mandatory] dt == DeviationDelete ==> (devSpec.Config != TSUnset ==> deviatedNode.Config == TSUnset) && (devSpec.Mandatory != TSUnset ==> deviatedNode.Mandatory == TSUnset)
+//@     body_ensures[replace-writes-the-defaults-of-the-deviate-statement] dt == DeviationReplace && len(devSpec.Default) > 0 ==> len(deviatedNode.Default) == len(devSpec.Default) && (forall i int :: 0 <= i && i < len(devSpec.Default) ==> deviatedNode.Default[i] == devSpec.Default[i])
+//@     body_ensures[add-and-replace-write-the-element-bounds] (dt == DeviationAdd || dt == DeviationReplace) && listy(deviatedNode) && devSpec.ListAttr != nil && deviatedNode.ListAttr != devSpec.ListAttr
+//@                 ==> (devSpec.deviatePresence.hasMinElements ==> deviatedNode.ListAttr.MinElements == devSpec.ListAttr.MinElements) && (devSpec.deviatePresence.hasMaxElements ==> deviatedNode.ListAttr.MaxElements == devSpec.ListAttr.MaxElements)
+//@     body_ensures[delete-resets-the-element-bounds] dt == DeviationDelete && listy(deviatedNode) && devSpec.ListAttr != nil
+//@                 ==> (devSpec.deviatePresence.hasMinElements ==> deviatedNode.ListAttr.MinElements == 0) && (devSpec.deviatePresence.hasMaxElements ==> deviatedNode.ListAttr.MaxElements == 18446744073709551615)
+//@     body_ensures[add-and-replace-write-units-and-type] (dt == DeviationAdd || dt == DeviationReplace) && (listy(deviatedNode) || (!devSpec.deviatePresence.hasMinElements && !devSpec.deviatePresence.hasMaxElements))
+//@                 ==> (devSpec.Units != "" ==> deviatedNode.Units == devSpec.Units) && (devSpec.Type != nil ==> deviatedNode.Type == devSpec.Type)
 
 // ---------------------------------------------------------------------------
 // C09: type names bind lexically.
